@@ -241,8 +241,10 @@ Definition add_empty_line (s : subr) : res subr :=
   do s1 <- flush_wrapping s;
   Ok (set_abe (add_line s1 (RText tl_new)) false).
 
+(* a nested sub-renderer inherits the text state: annotations, strikeout filters, preformatted
+   nesting and the white-space mode stack *)
 Definition new_sub_renderer (s : subr) (width : N) : subr :=
-  set_ann (sub_new width (sopts s)) (ann_stack s).
+  mksub width (sopts s) [] [] false None (ann_stack s) (filter_depth s) (pre_depth s) (ws_stack s).
 
 Definition start_block (s : subr) : res subr :=
   do s1 <- flush_wrapping s;
